@@ -37,6 +37,9 @@ theorem a_movq_reg_frame (s : State) (a : Nat) (name : String) (off : Nat) (fr' 
   simp only [execD, ins, G, exMov, getG, hga, ok_bind, writeSlot, h]
   rfl
 
+theorem lenG_setFlags (s : State) (f : Flags) : (setFlags s f).gpr.length = s.gpr.length := rfl
+theorem imm64_one : imm64 1 = 1 := by decide +kernel
+
 theorem cond_jge (a b : Nat) (ha : a < 2 ^ 63) (hb : b < 2 ^ 63) : Model.ISAVal.cond .JGE (subF 8 a b).2 = .ok (decide (b ≤ a)) := by
   rw [subF_flags a b ha hb]
   by_cases h : a < b
@@ -115,6 +118,7 @@ theorem needExpand_run (g v k : List Nat) (ptr len cap asked r0 : Nat) (hG : g.l
     apply exec_step (s1 := a8) (by have := a_cmpq_rr a7 8 3 (by omega) (by omega); rw [e78, e73] at this; exact this)
     rfl
   have rB : Reach neR 7 a7 8 a8 1 := reach_seg sB (by rfl) hxB
+  have hG8 : a8.gpr.length = 16 := (lenG_setFlags a7 _).trans hG7
   have rJ := reach_jcc (r := neR) (k := 8) (idx := 10) sJ rfl (label_findPc ne_labels (name := "done") (by decide)) (s := a8)
     (cond_jge (cap - len) asked (by omega) hask)
   -- both ways arrive at `done` with G9 = the answer
@@ -126,17 +130,19 @@ theorem needExpand_run (g v k : List Nat) (ptr len cap asked r0 : Nat) (hG : g.l
       rw [hd] at rJ
       simp only [Bool.false_eq_true, if_false] at rJ
       have hxC : execList [ins .MOVQ [.imm 1, G 9] 0] a8 = .ok (setGreg a8 9 (imm64 1)) := by
-        apply exec_step (a_movq_imm a8 1 9 (by show 9 < a7.gpr.length; omega))
+        apply exec_step (a_movq_imm a8 1 9 (by omega))
         rfl
       have rC : Reach neR 9 a8 10 _ 1 := reach_seg sC (by rfl) hxC
-      refine ⟨_, 2, by omega, rJ.trans rC, ?_, (lenG_setGreg a8 9 _).trans hG7, rfl⟩
-      rw [greg_setGreg_eq a8 9 _ (by show 9 < a7.gpr.length; omega), hres, if_pos hlt]; decide +kernel
+      refine ⟨_, 2, by omega, rJ.trans rC, ?_, (lenG_setGreg a8 9 _).trans hG8, rfl⟩
+      rw [greg_setGreg_eq a8 9 _ (by omega), hres, if_pos hlt]; exact imm64_one
     · have hd : decide (asked ≤ cap - len) = true := by simp; omega
       rw [hd] at rJ
       simp only [if_true] at rJ
-      refine ⟨a8, 1, by omega, rJ, ?_, hG7, rfl⟩
+      refine ⟨a8, 1, by omega, rJ, ?_, hG8, rfl⟩
+      show greg (setFlags a7 _) 9 = _
+      rw [greg_setFlags]
       show greg (setGreg a6 9 _) 9 = _
-      rw [greg_setGreg_eq a6 9 _ (by omega), hres, if_neg hlt]; decide +kernel
+      rw [greg_setGreg_eq a6 9 _ (by omega), hres, if_neg hlt]; exact imm64_0'
   -- the result
   let b1 := setGreg a9 1 res
   have hG1 : b1.gpr.length = 16 := (lenG_setGreg a9 1 _).trans hG9
